@@ -1,7 +1,7 @@
 (** C11 — events reach every listening catch event exactly once and delivery never blocks.
     Model: Model/Inbox.v — a catch event as a function of its FIFO message sequence (arming requests
     of arriving tokens and delivered events), and delivery to listeners with bounded inboxes. *)
-From BV Require Import Model.Inbox Proofs.InboxProofs Model.Arming Proofs.ArmingProofs Model.Catch Proofs.CatchProofs Model.EventTree Proofs.EventTreeProofs Gen.Facts.
+From BV Require Import Model.Inbox Proofs.InboxProofs Model.Arming Proofs.ArmingProofs Model.Catch Proofs.CatchProofs Model.EventTree Proofs.EventTreeProofs Model.EventTreeFlow Proofs.EventTreeFlowProofs Gen.Facts.
 
 (* EXACTLY ONCE — for every message history of a listener: every token that armed it has either
    continued exactly once or is still waiting ... *)
@@ -99,3 +99,30 @@ Theorem C11_delivery_refuted_for_unregistered_subprocesses :
   deliver [ECatch 1; ESub true [ECatch 2; ESub true [ECatch 3]]] = [1; 2; 3].
 Proof. exact refuted_unregistered_subprocess. Qed.
 Print Assumptions C11_delivery_refuted_for_unregistered_subprocesses.
+
+(* DELIVERY RETURNS THROUGH SUB-PROCESSES (Model/EventTreeFlow.v: the tree of consumers with the listeners' bounded
+   inboxes). An embedded sub-process forwards an event to the consumers inside on the goroutine of whoever delivers it
+   (the variant the sources show: src_subprocess_forwards_directly, read off subProcess.ConsumeEvent on every run):
+   for every tree, at any depth, whatever sub-processes have or have not been entered, a delivery is enabled whenever
+   every RUNNING listener has a free inbox slot -- C11_delivery_enabled carried through the tree. *)
+Theorem C11_delivery_returns_through_subprocesses : forall e top,
+  all_forward_as (negb src_subprocess_forwards_directly) top -> all_roomy top -> tdeliver_all e top <> None.
+Proof. exact delivery_returns_through_subprocesses. Qed.
+Print Assumptions C11_delivery_returns_through_subprocesses.
+
+(* a sub-process that queues the event in an inbox of its own, emptied by its run loop once a token has entered it:
+   the fourth event handed to an instance whose sub-process is not entered yet blocks, although nobody inside listens *)
+Theorem C11_delivery_refuted_with_a_queueing_subprocess :
+  (exists t, tdeliver_all 5 [TSub true false 3 0 [TCatch idle_catch]] = Some t /\
+     exists t', tdeliver_all 5 t = Some t' /\ exists t'', tdeliver_all 5 t' = Some t'' /\ tdeliver_all 5 t'' = None) /\
+  tdeliver_all 5 [TSub false false 3 0 [TCatch idle_catch]] = Some [TSub false false 3 0 [TCatch idle_catch]].
+Proof. exact refuted_with_a_queueing_subprocess. Qed.
+Print Assumptions C11_delivery_refuted_with_a_queueing_subprocess.
+
+Example C11_tree_flow_nonvacuous :
+  let l := {| running := true; cap := 2; inbox := [None]; pat_ := 1; st_ := l0 |} in
+  let top := [TCatch l; TSub false false 3 0 [TCatch idle_catch; TSub false true 3 0 [TCatch l]]] in
+  all_forward_as false top /\ all_roomy top /\
+  option_map (map (fun n => length (inbox n))) (option_map (flat_map leaves) (tdeliver_all 1 top)) = Some [2; 0; 2].
+Proof. cbn. repeat split; auto. Qed.
+
